@@ -64,9 +64,9 @@ pub fn classify(m: &str) -> &'static str {
         "count-mismatch"
     } else if m.contains("will_return_boolean requires") {
         "bool-sig-mismatch"
-    } else if m.contains("Signature mismatch") {
+    } else if m.to_lowercase().contains("signature") || m.to_lowercase().contains("mismatch") {
         "sig-mismatch"
-    } else if m.contains("Pointer must not be null") {
+    } else if m.to_lowercase().contains("null") {
         "null-pointer"
     } else if m.contains("Failed to allocate") {
         "alloc-failed"
